@@ -36,101 +36,109 @@ CONSTANTS
     NumSyss,     \* subset of {"Lin", "Log", "Square", "LinRel", "LinTanh"}
     RrefFlags    \* set of <<rref_equil, rref_preserv>>
 
-VARIABLES phase, R, ceq, K, xi, cinit, pert, c, cfg
-vars == <<phase, R, ceq, K, xi, cinit, pert, c, cfg>>
+VARIABLES phase, sys, ceq, K, xi, cinit, pert, c, cfg, expd
+vars == <<phase, sys, ceq, K, xi, cinit, pert, c, cfg, expd>>
 
-ZeroState == [s \in 1..NSp |-> QZero]
-OneK == [r \in 1..NRx |-> QOne]
 NoPert == [kind |-> "unset", i |-> 0, a |-> QZero]
 NoCfg == [ns |-> "", re |-> FALSE, rp |-> FALSE]
-Sp == SysSpecies(R)
-Unset == {s \in Sp : ceq[s][1] = 0}
+NS == Len(sys.ss)
+NR == Len(sys.rs)
+
+(* what the property says about a state st compared with the initial state ini: computed     *)
+(* once, when the perturbation is chosen, and kept in expd                                    *)
+QAbsDiff(a, b) == QAbs(QSub(a, b))
+Hundredth == <<1, 100>>
+Judge(st, ini) ==
+    LET q    == [i \in 1..NR |-> Quotient(sys.nu[i], st)]
+        totc == [i \in 1..Len(sys.B) |-> Total(sys.B[i], st)]
+        tot0 == [i \in 1..Len(sys.B) |-> Total(sys.B[i], ini)]
+        ateq == \A i \in 1..NR : QEq(q[i], K[i])
+        keeps == \A i \in 1..Len(sys.B) : QEq(totc[i], tot0[i])
+    IN  [ateq |-> ateq, keeps |-> keeps, zero |-> ateq /\ keeps, q |-> q, totc |-> totc, tot0 |-> tot0]
+NoExp == [ateq |-> FALSE, keeps |-> FALSE, zero |-> FALSE, q |-> <<>>, totc |-> <<>>, tot0 |-> <<>>]
+\* margins by which a judged state misses a quotient (relative) / a total (absolute)
+QuotientOff == \E i \in 1..NR : QLe(Hundredth, QAbsDiff(QDiv(expd.q[i], K[i]), QOne))
+TotalOff == \E i \in 1..Len(sys.B) : QLe(Hundredth, QAbsDiff(expd.totc[i], expd.tot0[i]))
 
 Init ==
-    /\ phase = "sys" /\ R = {} /\ ceq = ZeroState /\ K = OneK /\ xi = <<>>
-    /\ cinit = ZeroState /\ pert = NoPert /\ c = ZeroState /\ cfg = NoCfg
+    /\ phase = "sys" /\ sys = NoSys /\ ceq = <<>> /\ K = <<>> /\ xi = <<>>
+    /\ cinit = <<>> /\ pert = NoPert /\ c = <<>> /\ cfg = NoCfg /\ expd = NoExp
 
 ------------------------------------------------------------------------------
 ChooseSystem(S) ==
     /\ phase = "sys" /\ S # {} /\ S \subseteq HomogRx /\ Independent(S)
-    /\ R' = S /\ phase' = "state"
-    /\ UNCHANGED <<ceq, K, xi, cinit, pert, c, cfg>>
+    /\ sys' = SysInfo(S) /\ phase' = "state"
+    /\ UNCHANGED <<ceq, K, xi, cinit, pert, c, cfg, expd>>
 
-DefineK(st) == [r \in 1..NRx |-> IF r \in R THEN Qr(r, st) ELSE QOne]
+DefineK(st) == [i \in 1..NR |-> Quotient(sys.nu[i], st)]
 
-SetConc(s, v) ==
-    /\ phase = "state" /\ Unset # {} /\ s = Min(Unset) /\ v[1] > 0 /\ v[2] > 0
-    /\ ceq' = [ceq EXCEPT ![s] = Norm(v)]
-    /\ IF Unset = {s} THEN K' = DefineK(ceq') /\ phase' = "extent" ELSE UNCHANGED <<K, phase>>
-    /\ UNCHANGED <<R, xi, cinit, pert, c, cfg>>
+\* concentrations are chosen species by species, in the order of sys.ss
+SetConc(v) ==
+    /\ phase = "state" /\ Len(ceq) < NS /\ v[1] > 0 /\ v[2] > 0
+    /\ ceq' = Append(ceq, Norm(v))
+    /\ IF Len(ceq') = NS THEN K' = DefineK(ceq') /\ phase' = "extent" ELSE UNCHANGED <<K, phase>>
+    /\ UNCHANGED <<sys, xi, cinit, pert, c, cfg, expd>>
 
 SetPattern(a, b) ==
-    /\ phase = "state" /\ Unset = Sp /\ Len(GridSeq) > 0
-    /\ ceq' = [s \in 1..NSp |-> IF s \in Sp THEN Norm(GridSeq[((a * s + b) % Len(GridSeq)) + 1]) ELSE QZero]
+    /\ phase = "state" /\ ceq = <<>> /\ Len(GridSeq) > 0
+    /\ ceq' = [j \in 1..NS |-> Norm(GridSeq[((a * sys.ss[j] + b) % Len(GridSeq)) + 1])]
     /\ K' = DefineK(ceq') /\ phase' = "extent"
-    /\ UNCHANGED <<R, xi, cinit, pert, c, cfg>>
+    /\ UNCHANGED <<sys, xi, cinit, pert, c, cfg, expd>>
 
-\* cinit = ceq - SUM_j xi_j nu_j
-Backward(st, ext) ==
-    LET rs == RxSeq(R) IN
-    [s \in 1..NSp |-> IF s \in Sp
-        THEN QSub(st[s], QSumSeq([j \in 1..Len(rs) |-> QMul(ext[j], Q(Nu(rs[j], s)))]))
-        ELSE QZero]
+\* st + SUM_i ext_i nu_i
+Along(st, ext) ==
+    [j \in 1..NS |-> QAdd(st[j], QSumSeq([i \in 1..Len(ext) |-> QMul(ext[i], Q(sys.nu[i][j]))]))]
+NegAll(ext) == [i \in 1..Len(ext) |-> QNeg(ext[i])]
 
 SetExtent(x) ==
-    /\ phase = "extent" /\ Len(xi) < Cardinality(R)
+    /\ phase = "extent" /\ Len(xi) < NR
     /\ xi' = Append(xi, Norm(x))
-    /\ IF Len(xi') = Cardinality(R)
-       THEN /\ cinit' = Backward(ceq, xi')
-            /\ AllNonNegQ(Sp, cinit')
+    /\ IF Len(xi') = NR
+       THEN /\ cinit' = Along(ceq, NegAll(xi'))      \* cinit = ceq - SUM xi_i nu_i
+            /\ AllNonNegQ(cinit')
             /\ phase' = "pert"
        ELSE UNCHANGED <<cinit, phase>>
-    /\ UNCHANGED <<R, ceq, K, pert, c, cfg>>
+    /\ UNCHANGED <<sys, ceq, K, pert, c, cfg, expd>>
+
+Hand(st, ini, p) ==
+    /\ c' = st /\ cinit' = ini /\ pert' = p /\ expd' = Judge(st, ini) /\ phase' = "cfg"
+    /\ UNCHANGED <<sys, ceq, K, xi, cfg>>
 
 NoPerturb ==
     /\ phase = "pert"
-    /\ c' = ceq /\ pert' = [kind |-> "none", i |-> 0, a |-> QZero] /\ phase' = "cfg"
-    /\ UNCHANGED <<R, ceq, K, xi, cinit, cfg>>
+    /\ Hand(ceq, cinit, [kind |-> "none", i |-> 0, a |-> QZero])
 
-\* move the state along reaction number j of the system (keeps every total, changes Q_j)
-BreakQuotient(j, d) ==
-    /\ phase = "pert" /\ j \in 1..Cardinality(R) /\ d[1] # 0
-    /\ LET r == RxSeq(R)[j] IN
-       c' = [s \in 1..NSp |-> IF s \in Sp THEN QAdd(ceq[s], QMul(d, Q(Nu(r, s)))) ELSE QZero]
-    /\ AllPos(Sp, c')
-    /\ pert' = [kind |-> "extent", i |-> j, a |-> Norm(d)] /\ phase' = "cfg"
-    /\ UNCHANGED <<R, ceq, K, xi, cinit, cfg>>
+\* move the state along reaction number i of the system (keeps every total, changes Q_i)
+BreakQuotient(i, d) ==
+    /\ phase = "pert" /\ i \in 1..NR /\ d[1] # 0
+    /\ LET st == Along(ceq, [t \in 1..NR |-> IF t = i THEN d ELSE QZero])
+       IN  AllPos(st) /\ Hand(st, cinit, [kind |-> "extent", i |-> i, a |-> Norm(d)])
 
-ScaleSpecies(s, f) ==
-    /\ phase = "pert" /\ s \in Sp /\ f[1] > 0 /\ ~QEq(f, QOne)
-    /\ c' = [ceq EXCEPT ![s] = QMul(ceq[s], f)]
-    /\ pert' = [kind |-> "scale", i |-> s, a |-> Norm(f)] /\ phase' = "cfg"
-    /\ UNCHANGED <<R, ceq, K, xi, cinit, cfg>>
+ScaleSpecies(j, f) ==
+    /\ phase = "pert" /\ j \in 1..NS /\ f[1] > 0 /\ ~QEq(f, QOne)
+    /\ Hand([ceq EXCEPT ![j] = QMul(ceq[j], f)], cinit, [kind |-> "scale", i |-> j, a |-> Norm(f)])
 
 \* the state stays at ceq, the initial state it is compared with is shifted in one species
-BreakConservation(s, d) ==
-    /\ phase = "pert" /\ s \in Sp /\ d[1] # 0
-    /\ cinit' = [cinit EXCEPT ![s] = QAdd(cinit[s], d)]
-    /\ cinit'[s][1] >= 0
-    /\ c' = ceq
-    /\ pert' = [kind |-> "shift0", i |-> s, a |-> Norm(d)] /\ phase' = "cfg"
-    /\ UNCHANGED <<R, ceq, K, xi, cfg>>
+BreakConservation(j, d) ==
+    /\ phase = "pert" /\ j \in 1..NS /\ d[1] # 0
+    /\ LET ini == [cinit EXCEPT ![j] = QAdd(cinit[j], d)]
+       IN  ini[j][1] >= 0 /\ Hand(ceq, ini, [kind |-> "shift0", i |-> j, a |-> Norm(d)])
 
 Residual(ns, re, rp) ==
     /\ phase = "cfg"
     /\ cfg' = [ns |-> ns, re |-> re, rp |-> rp] /\ phase' = "done"
-    /\ UNCHANGED <<R, ceq, K, xi, cinit, pert, c>>
+    /\ UNCHANGED <<sys, ceq, K, xi, cinit, pert, c, expd>>
 
 ------------------------------------------------------------------------------
 (* generators over the configured constants *)
 GenSystem == \E S \in SUBSET RxnIds : Cardinality(S) \in 1..MaxRxns /\ ChooseSystem(S)
-GenConc == "full" \in StateModes /\ phase = "state" /\ Unset # {} /\ \E i \in 1..Len(GridSeq) : SetConc(Min(Unset), GridSeq[i])
+GenConc == "full" \in StateModes /\ \E i \in 1..Len(GridSeq) : SetConc(GridSeq[i])
 GenPattern == "pattern" \in StateModes /\ \E p \in Patterns : SetPattern(p[1], p[2])
 GenExtent == \E x \in Extents : SetExtent(x)
 GenNoPerturb == "none" \in PertKinds /\ NoPerturb
-GenBreakQuotient == "extent" \in PertKinds /\ \E j \in 1..Cardinality(R), d \in Deltas : BreakQuotient(j, d)
-GenScale == "scale" \in PertKinds /\ \E s \in Sp, f \in Factors : ScaleSpecies(s, f)
-GenBreakConservation == "shift0" \in PertKinds /\ \E s \in Sp, d \in Shifts : BreakConservation(s, d)
+GenBreakQuotient == "extent" \in PertKinds /\ \E i \in 1..NR, d \in Deltas : BreakQuotient(i, d)
+GenScale == "scale" \in PertKinds /\ \E j \in 1..NS, f \in Factors : ScaleSpecies(j, f)
+GenBreakConservation == "shift0" \in PertKinds /\ \E j \in 1..NS, d \in Shifts : BreakConservation(j, d)
 GenResidual == \E ns \in NumSyss, fl \in RrefFlags : Residual(ns, fl[1], fl[2])
 
 Next ==
@@ -139,38 +147,30 @@ Next ==
     \/ GenResidual
 
 Done == phase = "done"
-Perturbed == phase \in {"cfg", "done"}
+\* the judgement of a perturbed state is made once, in the state reached by the perturbation
+Perturbed == phase = "cfg"
 
 ------------------------------------------------------------------------------
-(* what the property says about the state c                                                   *)
-AtEq == IsEq(R, c, K)
-Keeps == Conserves(Sp, c, cinit)
-Zero == AtEq /\ Keeps
-
-QAbsDiff(a, b) == QAbs(QSub(a, b))
-Hundredth == <<1, 100>>
-QuotientOff == \E r \in R : QLe(Hundredth, QAbsDiff(QDiv(Qr(r, c), K[r]), QOne))
-TotalOff == \E k \in KeysOf(Sp) : QLe(Hundredth, QAbsDiff(Tot(k, c, Sp), Tot(k, cinit, Sp)))
-
 (* invariants *)
 TypeOK ==
     /\ phase \in {"sys", "state", "extent", "pert", "cfg", "done"}
-    /\ R \subseteq HomogRx
-    /\ \A s \in 1..NSp : ceq[s][2] > 0 /\ cinit[s][2] > 0 /\ c[s][2] > 0
-    /\ Len(xi) <= Cardinality(R)
+    /\ Len(ceq) <= NS /\ Len(xi) <= NR
+    /\ \A j \in 1..Len(ceq) : ceq[j][1] > 0 /\ ceq[j][2] > 0
+    /\ phase \in {"pert", "cfg", "done"} => Len(cinit) = NS /\ AllNonNegQ(cinit)
+    /\ phase \in {"cfg", "done"} => Len(c) = NS /\ AllPos(c)
 
 \* the backward construction yields an equilibrium state that conserves the initial totals
 BackwardConstructionIsEquilibrium ==
-    /\ phase = "pert" => ExpectedZero(R, ceq, cinit, K)
-    /\ (Perturbed /\ pert.kind = "none") => Zero
+    /\ phase = "pert" => ExpectedZero(sys, ceq, cinit, K)
+    /\ (Perturbed /\ pert.kind = "none") => expd.zero
 
 \* every perturbation falsifies exactly the clause it targets
 PerturbationBreaksOneClause ==
     Perturbed =>
-        CASE pert.kind = "none"   -> AtEq /\ Keeps
-          [] pert.kind = "extent" -> ~AtEq /\ Keeps
-          [] pert.kind = "scale"  -> ~AtEq /\ ~Keeps
-          [] pert.kind = "shift0" -> AtEq /\ ~Keeps
+        CASE pert.kind = "none"   -> expd.ateq /\ expd.keeps
+          [] pert.kind = "extent" -> ~expd.ateq /\ expd.keeps
+          [] pert.kind = "scale"  -> ~expd.ateq /\ ~expd.keeps
+          [] pert.kind = "shift0" -> expd.ateq /\ ~expd.keeps
 
 \* ... and by a margin (relative 1e-2 in a quotient, absolute 1e-2 in a total): no residual
 \* of a perturbed case can be mistaken for rounding noise
@@ -178,40 +178,40 @@ PerturbationIsLarge ==
     Perturbed =>
         /\ pert.kind \in {"extent", "scale"} => QuotientOff
         /\ pert.kind \in {"scale", "shift0"} => TotalOff
+        /\ pert.kind = "none" => ~QuotientOff /\ ~TotalOff
 
-\* balanced reactions span a subspace of the null space of the composition matrix: the
-\* row-reduced formulation never has more equations than unknowns
+\* balanced reactions lie in the null space of the composition matrix: the row-reduced
+\* formulation never has more equations than unknowns
 NeverOverdetermined ==
-    R # {} => /\ NEq(R, TRUE) <= Cardinality(Sp)
-              /\ NEq(R, TRUE) <= NEq(R, FALSE)
+    phase = "state" /\ ceq = <<>> =>
+        /\ NEq(sys, TRUE) <= NS
+        /\ NEq(sys, TRUE) <= NEq(sys, FALSE)
+        /\ \A i \in 1..NR, k \in 1..Len(sys.B) : Dot(sys.nu[i], sys.B[k]) = 0
 
 ------------------------------------------------------------------------------
 (* case export *)
-TakeAt(f, idx) == [j \in 1..Len(idx) |-> f[idx[j]]]
 PairSeq(S) == SetToSortSeq(S, LAMBDA p, q : p[1] < q[1])
-PosIn(seq, v) == CHOOSE j \in 1..Len(seq) : seq[j] = v
 
 CaseIn ==
-    LET ss == SpSeq(R)  rs == RxSeq(R) IN
-    [species |-> [j \in 1..Len(ss) |-> [name |-> SpName[ss[j]], comp |-> PairSeq(SpComp[ss[j]])]],
-     rxns    |-> [i \in 1..Len(rs) |-> PairSeq({<<PosIn(ss, p[1]), p[2]>> : p \in RxNu[rs[i]]})],
-     rids    |-> rs,
-     K       |-> TakeAt(K, rs),
-     ceq     |-> TakeAt(ceq, ss),
-     c0      |-> TakeAt(cinit, ss),
-     c       |-> TakeAt(c, ss),
+    [species |-> [j \in 1..NS |-> [name |-> SpName[sys.ss[j]], comp |-> PairSeq(SpComp[sys.ss[j]])]],
+     nu      |-> sys.nu,
+     rids    |-> sys.rs,
+     sidx    |-> sys.ss,
+     K       |-> K,
+     ceq     |-> ceq,
+     c0      |-> cinit,
+     c       |-> c,
      xi      |-> xi,
      pert    |-> pert,
      ns      |-> cfg.ns, re |-> cfg.re, rp |-> cfg.rp]
 
 CaseExp ==
-    LET ss == SpSeq(R)  rs == RxSeq(R)  ks == KeySeq(Sp) IN
-    [zero  |-> Zero, ateq |-> AtEq, keeps |-> Keeps,
-     neq   |-> NEq(R, cfg.rp),
-     q     |-> [i \in 1..Len(rs) |-> Qr(rs[i], c)],
-     keys  |-> ks,
-     totc  |-> [i \in 1..Len(ks) |-> Tot(ks[i], c, Sp)],
-     tot0  |-> [i \in 1..Len(ks) |-> Tot(ks[i], cinit, Sp)],
+    [zero  |-> expd.zero, ateq |-> expd.ateq, keeps |-> expd.keeps,
+     neq   |-> NEq(sys, cfg.rp),
+     q     |-> expd.q,
+     keys  |-> sys.ks,
+     totc  |-> expd.totc,
+     tot0  |-> expd.tot0,
      \* |f_i| < 10^-tolz for all i  <=> "zero";  some |f_i| > 10^-tolnz <=> "nonzero"
      tolz  |-> 10, tolnz |-> 6]
 
